@@ -10,7 +10,8 @@ use serde::{Deserialize, Serialize};
 use server_fn::{
     codec::{
         ByteStream, Cbor, DeleteUrl, GetUrl, Json, MsgPack, MultipartData, MultipartFormData,
-        PatchCbor, PatchJson, PatchUrl, PostUrl, Postcard, PutCbor, PutJson, PutUrl, Rkyv,
+        PatchCbor, PatchJson, PatchMsgPack, PatchPostcard, PatchUrl, PostUrl, Postcard, PutCbor,
+        PutJson, PutMsgPack, PutPostcard, PutUrl, Rkyv,
         SerdeLite, Streaming, StreamingText, TextStream,
     },
     error::{NoCustomError, ServerFnError},
@@ -135,6 +136,76 @@ sfn!(f_posturl_rkyv, FPosturlRkyv, PostUrl, Rkyv);
 sfn!(f_rkyv_postcard, FRkyvPostcard, Rkyv, Postcard);
 sfn!(f_patchcbor_putcbor, FPatchcborPutcbor, PatchCbor, PutCbor);
 sfn!(f_putcbor_msgpack, FPutcborMsgpack, PutCbor, MsgPack);
+
+// ---------------------------------------------------------------- Option arguments
+/// what the Option-argument functions return: their arguments
+#[derive(Clone, Debug, PartialEq, Serialize, Deserialize)]
+pub struct OptEcho {
+    pub first: Option<u32>,
+    pub a: String,
+    pub mid: Option<String>,
+    pub list: Option<Vec<Inner>>,
+    pub n: i64,
+    pub last: Option<Inner>,
+}
+type RO = Result<OptEcho, ServerFnError>;
+
+macro_rules! ofn {
+    ($name:ident, $i:ident) => {
+        #[server(input = $i, output = Json, client = LoopClient, server = LoopServer)]
+        pub async fn $name(
+            first: Option<u32>,
+            a: String,
+            mid: Option<String>,
+            list: Option<Vec<Inner>>,
+            n: i64,
+            last: Option<Inner>,
+        ) -> Result<OptEcho, ServerFnError> {
+            Ok(OptEcho { first, a, mid, list, n, last })
+        }
+    };
+}
+ofn!(o_json, Json);
+ofn!(o_cbor, Cbor);
+ofn!(o_msgpack, MsgPack);
+ofn!(o_postcard, Postcard);
+ofn!(o_rkyv, Rkyv);
+ofn!(o_serdelite, SerdeLite);
+ofn!(o_geturl, GetUrl);
+ofn!(o_posturl, PostUrl);
+ofn!(o_deleteurl, DeleteUrl);
+ofn!(o_patchurl, PatchUrl);
+ofn!(o_puturl, PutUrl);
+ofn!(o_patchjson, PatchJson);
+ofn!(o_putjson, PutJson);
+ofn!(o_patchcbor, PatchCbor);
+ofn!(o_putcbor, PutCbor);
+ofn!(o_patchmsgpack, PatchMsgPack);
+ofn!(o_putmsgpack, PutMsgPack);
+ofn!(o_patchpostcard, PatchPostcard);
+ofn!(o_putpostcard, PutPostcard);
+
+macro_rules! otable {
+    ($($name:ident / $strct:ident),* $(,)?) => {
+        pub const OPT_FNS: &[(&str, fn(OptEcho) -> RO, fn(OptEcho) -> RO)] = &[
+            $((
+                stringify!($name),
+                |e| futures::executor::block_on(
+                    $strct { first: e.first, a: e.a, mid: e.mid, list: e.list, n: e.n, last: e.last }
+                        .run_on_client(),
+                ),
+                |e| futures::executor::block_on($name(e.first, e.a, e.mid, e.list, e.n, e.last)),
+            )),*
+        ];
+    };
+}
+otable!(
+    o_json / OJson, o_cbor / OCbor, o_msgpack / OMsgpack, o_postcard / OPostcard, o_rkyv / ORkyv,
+    o_serdelite / OSerdelite, o_geturl / OGeturl, o_posturl / OPosturl, o_deleteurl / ODeleteurl,
+    o_patchurl / OPatchurl, o_puturl / OPuturl, o_patchjson / OPatchjson, o_putjson / OPutjson,
+    o_patchcbor / OPatchcbor, o_putcbor / OPutcbor, o_patchmsgpack / OPatchmsgpack,
+    o_putmsgpack / OPutmsgpack, o_patchpostcard / OPatchpostcard, o_putpostcard / OPutpostcard,
+);
 
 type R = Result<Val, ServerFnError>;
 macro_rules! table {
@@ -335,6 +406,14 @@ fn items_to<T, F: Fn(&T) -> Sexp>(items: &[Result<T, ServerFnError>], f: F) -> S
         .collect())
 }
 
+/// (request-frame-header response-frame-header), each 0..=9; absent = keep the default
+fn set_frame(s: &Sexp) {
+    if s.list().len() == 2 {
+        crate::looprt::FRAME
+            .with(|f| f.set((s.at(0).num() as usize % 10, s.at(1).num() as usize % 10)));
+    }
+}
+
 pub fn run(c: &Sexp) -> Sexp {
     use futures::executor::block_on;
     match c.at(0).num() {
@@ -342,6 +421,7 @@ pub fn run(c: &Sexp) -> Sexp {
         10 => {
             let (_, remote, direct) = PAIRS[c.at(1).num() as usize % PAIRS.len()];
             let (v, plan) = (val_of(c.at(2)), plan_of(c.at(3)));
+            set_frame(c.at(4));
             let r = remote(v.clone(), plan.clone());
             let d = direct(v, plan);
             Lst(vec![res_to(&r), res_to(&d)])
@@ -350,6 +430,7 @@ pub fn run(c: &Sexp) -> Sexp {
         11 => {
             let (_, remote, _) = PAIRS[c.at(1).num() as usize % PAIRS.len()];
             let (v, plan) = (val_of(c.at(2)), plan_of(c.at(3)));
+            set_frame(c.at(6));
             let mut f = Faults::default();
             match c.at(4).num() {
                 0 => f.request = Some(edit_of(c.at(5))),
@@ -368,7 +449,9 @@ pub fn run(c: &Sexp) -> Sexp {
             if let Some(ct) = c.at(1).list().first() {
                 b = b.header("content-type", http::HeaderValue::from_bytes(&ct.bytes()).unwrap());
             }
-            let req = b.body(Bytes::from(c.at(2).bytes())).unwrap();
+            let req = b
+                .body(crate::looprt::framed(&c.at(2).bytes(), crate::looprt::FRAME.with(|f| f.get()).0))
+                .unwrap();
             let w = block_on(async { collect(serve(req).await).await });
             Lst(vec![Num(w.status as i64), Sexp::from_bytes(&w.body())])
         }
@@ -420,6 +503,36 @@ pub fn run(c: &Sexp) -> Sexp {
             let remote = collect_text(block_on(TextOut { chunks: chunks.clone() }.run_on_client()));
             let direct = collect_text(block_on(text_out(chunks)));
             Lst(vec![remote, direct])
+        }
+        // Option arguments in first / middle / last position, for every input encoding
+        18 => {
+            let (_, remote, direct) = OPT_FNS[c.at(1).num() as usize % OPT_FNS.len()];
+            let e = OptEcho {
+                first: c.at(2).list().first().map(|x| x.num() as u32),
+                a: text(c.at(3)),
+                mid: c.at(4).list().first().map(text),
+                list: c.at(5).list().first().map(|l| l.list().iter().map(inner_of).collect()),
+                n: u64_of(c.at(6)) as i64,
+                last: c.at(7).list().first().map(inner_of),
+            };
+            set_frame(c.at(8));
+            let show = |r: RO| match r {
+                Ok(e) => Lst(vec![
+                    Num(0),
+                    Lst(vec![
+                        Lst(e.first.iter().map(|x| Num(*x as i64)).collect()),
+                        Sexp::from_str(&e.a),
+                        Lst(e.mid.iter().map(|s| Sexp::from_str(s)).collect()),
+                        Lst(e.list.iter().map(|l| Lst(l.iter().map(inner_to).collect())).collect()),
+                        u64_to(e.n as u64),
+                        Lst(e.last.iter().map(inner_to).collect()),
+                    ]),
+                ]),
+                Err(e) => Lst(vec![Num(1), crate::errs::err_to_sexp(&e)]),
+            };
+            let r = show(remote(e.clone()));
+            let d = show(direct(e));
+            Lst(vec![r, d])
         }
         // byte stream in
         17 => {
